@@ -1447,6 +1447,9 @@ class Interp:
         if hasattr(base, "__pyvc_setattr__"):
             base.__pyvc_setattr__(self, name, v)
             return
+        if hasattr(base, "__pyvc_native__"):
+            setattr(base, name, v)
+            return
         if isinstance(base, ClassVal):
             base.attrs[name] = v
             return
